@@ -21,6 +21,8 @@ import (
 	stypes "github.com/chain4energy/c4e-chain/x/cfesignature/types"
 	vtypes "github.com/chain4energy/c4e-chain/x/cfevesting/types"
 	"github.com/cosmos/cosmos-sdk/simapp"
+	"github.com/cosmos/cosmos-sdk/x/gov"
+	govv1 "github.com/cosmos/cosmos-sdk/x/gov/types/v1"
 	sdk "github.com/cosmos/cosmos-sdk/types"
 	authtypes "github.com/cosmos/cosmos-sdk/x/auth/types"
 	bankkeeper "github.com/cosmos/cosmos-sdk/x/bank/keeper"
@@ -203,6 +205,53 @@ func (s *state) failingMsg() sdk.Msg {
 	return banktypes.NewMsgSend(s.users["payer"].Addr, s.users["o1"].Addr, sdk.NewCoins(sdk.NewCoin("uc4e", sdk.NewInt(1000000000000))))
 }
 
+// govExecute runs messages the way they reach the chain in production: a governance proposal is submitted, deposited,
+// voted by the bonded delegator, and executed by x/gov's EndBlocker at the end of the voting period (all messages on one
+// branch of the state, written only if every one succeeds).  Returns "ok" (passed and executed), "rejected" (refused at
+// submission or failed on execution) or "panic".
+func (s *state) govExecute(e *env.Env, ctx sdk.Context, msgs ...sdk.Msg) (outcome, detail string) {
+	gk := e.App.GovKeeper
+	if p := env.Try(func() {
+		dp := gk.GetDepositParams(ctx)
+		dp.MinDeposit = sdk.NewCoins(sdk.NewCoin("stake", sdk.OneInt()))
+		gk.SetDepositParams(ctx, dp)
+		vp := gk.GetVotingParams(ctx)
+		d := time.Second
+		vp.VotingPeriod = &d
+		gk.SetVotingParams(ctx, vp)
+		prop, err := gk.SubmitProposal(ctx, msgs, "")
+		if err != nil {
+			outcome, detail = "rejected", "submit: "+err.Error()
+			return
+		}
+		if _, err := gk.AddDeposit(ctx, prop.Id, s.users["payer"].Addr, dp.MinDeposit); err != nil {
+			panic("harness: deposit failed: " + err.Error())
+		}
+		if err := gk.AddVote(ctx, prop.Id, e.Users["delegator"].Addr, govv1.NewNonSplitVoteOption(govv1.OptionYes), ""); err != nil {
+			panic("harness: vote failed: " + err.Error())
+		}
+		gov.EndBlocker(ctx.WithBlockTime(ctx.BlockTime().Add(2*time.Second)).WithEventManager(sdk.NewEventManager()), gk)
+		done, _ := gk.GetProposal(ctx, prop.Id)
+		switch done.Status {
+		case govv1.StatusPassed:
+			outcome = "ok"
+		case govv1.StatusFailed:
+			outcome, detail = "rejected", "handler of a proposal message failed on execution"
+		default:
+			panic("harness: proposal ended as " + done.Status.String())
+		}
+	}); p != "" {
+		return "panic", p
+	}
+	return outcome, detail
+}
+
+// failingGovMsg is signed by the governance account (so that a proposal may carry it) and fails in its handler.
+func (s *state) failingGovMsg() sdk.Msg {
+	from, _ := sdk.AccAddressFromBech32(env.Gov())
+	return banktypes.NewMsgSend(from, s.users["o1"].Addr, sdk.NewCoins(sdk.NewCoin("uc4e", sdk.NewInt(1000000000000))))
+}
+
 func (s *state) exportImport(e *env.Env, ctx sdk.Context) (*env.Env, sdk.Context, string, string) {
 	app := e.App
 	var gen map[string]json.RawMessage
@@ -316,7 +365,14 @@ func apply(w *walk.Worker, ctx sdk.Context, e *graph.Edge, path []*graph.Edge, g
 		supBefore = s.project(en, ctx).Supply
 		p := s.meta.BuildParams(graph.Rec(act["payload"]))
 		msg := &mtypes.MsgUpdateParams{Authority: env.Gov(), MintDenom: p.MintDenom, StartTime: p.StartTime, Minters: p.Minters}
-		outcome, detail, _, _ := en.Deliver(ctx, msg)
+		var outcome, detail string
+		if len(path)%2 == 0 {
+			// every other update goes through a real governance proposal (submit, deposit, vote, x/gov EndBlocker)
+			w.Count("update.via-gov")
+			outcome, detail = s.govExecute(en, ctx, msg)
+		} else {
+			outcome, detail, _, _ = en.Deliver(ctx, msg)
+		}
 		want := map[bool]string{true: "ok", false: "rejected"}[graph.Bool(act["ok"])]
 		if outcome != want {
 			fail("C13", "outcome", "chain.updateminter", "minter parameter update accept/reject differs from the model ("+detail+")", want, outcome)
@@ -325,7 +381,13 @@ func apply(w *walk.Worker, ctx sdk.Context, e *graph.Edge, path []*graph.Edge, g
 	case "updatedist":
 		supBefore = s.project(en, ctx).Supply
 		msg := &dtypes.MsgUpdateParams{Authority: env.Gov(), SubDistributors: distributor.BuildCfg(s.meta.P, s.ids, act["payload"])}
-		outcome, detail, _, _ := en.Deliver(ctx, msg)
+		var outcome, detail string
+		if len(path)%2 == 0 {
+			w.Count("update.via-gov")
+			outcome, detail = s.govExecute(en, ctx, msg)
+		} else {
+			outcome, detail, _, _ = en.Deliver(ctx, msg)
+		}
 		want := map[bool]string{true: "ok", false: "rejected"}[graph.Bool(act["ok"])]
 		if outcome != want {
 			fail("C13", "outcome", "chain.updatedist", "distributor parameter update accept/reject differs from the model ("+detail+")", want, outcome)
@@ -333,7 +395,17 @@ func apply(w *walk.Worker, ctx sdk.Context, e *graph.Edge, path []*graph.Edge, g
 		}
 	case "failedtx":
 		supBefore = s.project(en, ctx).Supply
-		outcome, detail := en.DeliverTx(ctx, s.updateMsg(graph.Str(act["kind"]), act["payload"]), s.failingMsg())
+		var outcome, detail string
+		if len(path)%2 == 0 {
+			// as the message list of a passed governance proposal: executed by x/gov's EndBlocker on one branch, dropped as a whole
+			w.Count("failedtx.via-gov")
+			outcome, detail = s.govExecute(en, ctx, s.updateMsg(graph.Str(act["kind"]), act["payload"]), s.failingGovMsg())
+			if outcome == "rejected" && strings.HasPrefix(detail, "handler of a proposal message") {
+				detail = "handler of message 1 (proposal)"
+			}
+		} else {
+			outcome, detail = en.DeliverTx(ctx, s.updateMsg(graph.Str(act["kind"]), act["payload"]), s.failingMsg())
+		}
 		if outcome != "rejected" || !strings.HasPrefix(detail, "handler of message 1") {
 			fail("C13", "outcome", "chain.failedtx", "a transaction of a valid update and a failing message was expected to fail in its second message ("+detail+")", "rejected", outcome)
 			return ctx, fs, true
